@@ -91,7 +91,7 @@ func hookPerturb(p *caseProg, rng *rand.Rand) {
 	}
 }
 
-var randDrivers = []string{"term", "term", "termargs", "shared", "conc", "conc", "args", "args", "script", "scriptstrict"}
+var randDrivers = []string{"term", "term", "termargs", "shared", "conc", "conc", "args", "args", "script", "scriptstrict", "ownroot"}
 
 func randCase(idx int, rng *rand.Rand) *caseProg {
 	b := newBuilder()
